@@ -202,7 +202,12 @@ def boundary_zone(ctx, dim, width, shape, field_type):
 # ------------------------------------------------------------------------------------- filters
 def _make_filter(ctx, spne, order, ftype, field_type, shape, tag):
     b1, b2 = ctx.array(f"{tag}flux_buf", shape), ctx.array(f"{tag}field_buf", shape)
-    return spne.gen_laplacian_filter_kernel_3d(filter_order=order, filter_flux_buffer=b1, field_buffer=b2, real_t=ctx.real_t, num_threads=False, field_type=field_type, filter_type=ftype)
+    k = spne.gen_laplacian_filter_kernel_3d(filter_order=order, filter_flux_buffer=b1, field_buffer=b2, real_t=ctx.real_t, num_threads=False, field_type=field_type, filter_type=ftype)
+    # the caller-owned scratch buffers may be used by anything between generating the kernel and calling it:
+    # arbitrary contents at CALL time (not only at generation time)
+    b1[...] = ctx.array(f"{tag}flux_buf_at_call", shape)
+    b2[...] = ctx.array(f"{tag}field_buf_at_call", shape)
+    return k
 
 
 @scenario
